@@ -2,7 +2,7 @@
 From Coq Require Import List ZArith NArith Bool.
 From Coq Require Import Permutation.
 From ELA Require Import model.Ledger proof.Ledger_unspent proof.C06_Ledger proof.C13_Ledger
-  proof.Ledger_addr proof.Ledger_addr_inv proof.C13_Full.
+  proof.Ledger_addr proof.Ledger_addr_inv proof.C13_Full proof.C13_Progress.
 From ELA Require corr.C13_corr. (* so that the correspondence checker is rebuilt with the model *)
 Import ListNotations.
 Local Open Scope N_scope.
@@ -51,6 +51,19 @@ Theorem C13_rewithdraw_after_rollback : forall s c b s1 s2,
   (forall b', b_txs b' = b_txs b -> valid_block s2 b').
 Proof. exact rewithdraw_after_rollback. Qed.
 Print Assumptions C13_rewithdraw_after_rollback.
+
+(* Progress, transaction-index part: after TxIndex.ConnectBlock of a block
+   whose transaction ids are distinct (over ANY prior index contents),
+   TxIndex.DisconnectBlock of that block cannot fail, and it leaves exactly the
+   prior index minus the block's ids.  This discharges, for the tx index, the
+   "RollbackBlock returns Ok" hypothesis of the two theorems above (the
+   unspent and per-address parts of that hypothesis stay observed). *)
+Theorem C13_txindex_disconnect_after_connect_succeeds : forall b (m : N -> option (N * tx)),
+  NoDup (ids (b_txs b)) ->
+  exists m', txidx_disconnect (txidx_connect m b) b = Ok m' /\
+             forall t, m' t = if existsb (N.eqb t) (ids (b_txs b)) then None else m t.
+Proof. exact txidx_disconnect_after_connect_ok. Qed.
+Print Assumptions C13_txindex_disconnect_after_connect_succeeds.
 
 (* ---------------------------------------------------------------- witnesses *)
 Definition x_cb (id lock : N) := mkTx id true lock [] [mkOut 0 30; mkOut 1 35; mkOut 0 35]%Z SNone.
